@@ -8,6 +8,7 @@ EXPLANATION = (
     "otherwise retain leads to insert_to_retained_publishes with a copy taken before `publish.retain = false`, and that assignment dominates the append loop (live forwards are not flagged retained); "
     "(R-C15-oneshot) read_retained_messages is called only in forward_device_data under request.forward_retained and every path from the call clears the flag; a new DataRequest's forward_retained is group.is_none(); "
     "a DataRequest is built only when connection.subscriptions.insert() reported a new filter; retained forwards carry no log cursor. "
+    "(R-C15-window) the list of retained messages replayed to a new subscription is truncated to a length derived from the subscriber's window (Outgoing::free_slots / max_outgoing_packet_count) only; "
     "(R-C15-match) read_retained_messages passes the retained map's key (a topic) as matches()'s topic argument and the subscription filter as its filter argument; "
     "NOT decided: 'most recent per topic' over publish histories; the retain flag on the wire (C04).")
 ASSUMPTIONS = ["rustc MIR construction is correct"]
@@ -20,7 +21,18 @@ def run(ctx):
     prog = ctx.progs["rumqttd"]
     ctx.guarded("R-C15-store", store, ctx, prog)
     ctx.guarded("R-C15-oneshot", oneshot, ctx, prog)
+    ctx.guarded("R-C15-window", window, ctx, prog)
     ctx.guarded("R-C15-match", matchroles.check, ctx, "R-C15-match", prog, r"^router::logs::DataLog::read_retained_messages$", "retained replay for a new subscription")
+
+
+def window(ctx, prog):
+    """'provided those fit in its delivery window': the replayed retained messages are cut to the subscriber's
+    window (free inflight slots / configured batch), not to some other number — shared with R-C09-bound"""
+    from . import c09
+    from .common import Relabel
+    view = Relabel(ctx, "R-C15-window", lambda fn, inst: "retained truncate" in inst)
+    c09.bound(view, prog)
+    ctx.floor("R-C15-window", "verdicts about the retained truncate length", view.kept, 1)
 
 
 def switch_on_call_result(body, callee_regex, recv_field=None):
